@@ -30,3 +30,11 @@ package cache
 //@   ensures bindCalls() == old(bindCalls()) + 1
 //@   note assumed: SchedulerCache.Bind creates the BindRequest / status updates; no write to the session snapshot
 //@ end
+
+// C10 (helper scb): NewNodeAffinitiesFilter reads session.Cache.InternalK8sPlugins().NodeAffinity. Without this contract the
+// invoke is case-split into MockCache (gomock reflection), which havocs the whole heap.
+//@ func Cache.InternalK8sPlugins
+//@   pure
+//@   ensures [assumed] result != nil
+//@   note assumed: SchedulerCache.internalPlugins is set once by the cache constructor (k8splugins.InitializeInternalPlugins) and returned as is; reads nothing of the session snapshot
+//@ end
